@@ -86,7 +86,14 @@ func secDecimateSplitAttempts(r *vlib.Run) {
 func decimateCase(c *vlib.Case, splitAttempts bool) {
 	{
 		rng := c.Rng
-		in := genMesh(c, rng, -1, 2500)
+		maxFaces := 2500
+		if splitAttempts {
+			// backtracking over split lines is exponential in the loop depth even with the
+			// documented cap; keep inputs small so that the wall-clock guard (a bounded-
+			// progress restatement, not a performance requirement) stays far from its limit
+			maxFaces = 600
+		}
+		in := genMesh(c, rng, -1, maxFaces)
 		if in == nil {
 			c.Undecided("no-certified-input")
 			return
